@@ -419,3 +419,27 @@ ROUND8 = {
 for _k, _v in ROUND8.items():
     if _k in CLAIMS:
         CLAIMS[_k]['text'] += '  Round 8: ' + _v
+
+# what round 9 added to each claim (DESIGN.md section 13.12)
+ROUND9 = {
+    'C01': 'the Glat iterator\'s end test leaves room for a whole value; a tabled validator called with other operands is a violation; the Gloc attribute-id array is counted in 16-bit units; '
+           'the guarded length of a name string is in bytes.',
+    'C02': 'Segment\'s constructor interpreted (first newSlot with a block size >= 1); no fixed-size local array is indexed without a constant bound; the loader\'s tabled rejections and the '
+           'child-chain surgery are shared (validators, listops).',
+    'C03': 'the count rules of C12 and RESTORE of C19 are shared; gr_face_n_glyphs counts what the Gloc table holds.',
+    'C04': 'the DELETE arm of the code analyser marks the action as deleting, unconditionally.',
+    'C05': 'the caller\'s nChars reaches the decoding loop unchanged (shared with C12); slot members are addressed by role in the PUT_COPY execution.',
+    'C06': 'who tells positionSlots which direction; Pass::adjustSlot and the attribute stride are shared; the trace cell freeSlot bumps has room in newSlot.',
+    'C10': 'the preloading constructor reads the boxes whatever the number of sub-boxes (defect F25, repaired); the sub-box total is wider than 16 bits.',
+    'C12': 'the text execution also decides ill-formed text: one U+FFFD per offending unit, to the NUL or nChars.',
+    'C13': 'malloc\'ed cache blocks hold garbage in the agreement run; DirectCmap\'s constructor is interpreted; ~CachedCmap frees every block its constructor made.',
+    'C15': 'no API query positions the segment again; justify branches on design-unit quantities only.',
+    'C16': 'a field holding a fresh allocation is not nulled unreleased; aliases through calls that return the address of their argument; OPTFLOW and CMAPBOUND shared.',
+    'C17': 'ShiftCollider::resolve by symbolic execution (the shift handed back is the cheapest axis\' free position); insert / push_back handed a reference to an own element.',
+    'C18': 'SillMap::readSill interpreted on byte-level tables; per-feature values are per-iteration; a label is built from bytes of the name table only.',
+    'C19': 'no fixed-size local array indexed by the level count; getSlotBidiClass returns what it caches.',
+    'C20': 'gr_tag_to_str interpreted on exact-size buffers whatever its form.',
+}
+for _k, _v in ROUND9.items():
+    if _k in CLAIMS:
+        CLAIMS[_k]['text'] += '  Round 9: ' + _v
